@@ -18,19 +18,32 @@
    Hypotheses on the document: it is in the execution model's fragment with exactly ONE
    operation (to_exec fl None d = Some x); the operation's root type exists and is an object type
    (no validation rule checks that).
-   What remains outside (hence `_partial`): the merging clause of the judgment - fields that can
-   be merged under one response key have one field name - is OverlappingFieldsCanBeMerged's
-   subject (C14) and enters as the hypothesis [names_agree], which is exactly the judgment without
-   its per-field clause (C13_rules_merging_is_part_of_judgment); and the conclusion is the
-   declarative judgment set_typed, not the boolean checker well_typed (whose fuel would need
-   NoFragmentCycles).  KnownTypeNames / FragmentsOnCompositeTypes on fragments,
-   PossibleFragmentSpreads, KnownFragmentNames and NoFragmentCycles are NOT needed for type safety:
-   a fragment that cannot apply, or an unknown one, contributes no field at run time. *)
+   The merging clause of the judgment - fields that can be merged under one response key have one
+   field name - is OverlappingFieldsCanBeMerged's subject (C14).  It is discharged from C14's own
+   specification function: Valid/ToOverlap.v translates schema and operation into the input of
+   Valid/Overlap.v (names interned injectively, occurrences numbered), and
+   [overlap_verdict s rt x = VNo] (Overlap.spec_verdict, the function C14 proves equal to the
+   memoized algorithm and checks against the real rule) implies [names_agree]
+   (C13_rules_merging, proofs Valid/OverlapCollect.v, OverlapGood.v, OverlapBridge.v).  C14's
+   weaker demand on fields with different OBJECT parents is no gap: fields reachable at one
+   runtime type never have different object parents.  The derivation needs a finite expansion
+   through fragment spreads, which NoFragmentCycles + UniqueFragmentNames give
+   (C13_rules_expansion_finite, Valid/RulesAcyclic.v).
+   Hence C13_rules_typed / C13_rules_sound have no hypothesis left that a validation rule of the
+   model is responsible for.  What remains, and is stated: ONE operation (to_exec fl None), its
+   root type exists and is an object type, and the conclusion is the declarative judgment
+   set_typed (what C13_sound consumes), not the boolean checker well_typed.  The older
+   C13_rules_typed_partial / _sound_partial (merging as the abstract hypothesis names_agree, no
+   use of NoFragmentCycles) are kept.  KnownTypeNames / FragmentsOnCompositeTypes on fragments,
+   PossibleFragmentSpreads and KnownFragmentNames are NOT needed for type safety: a fragment that
+   cannot apply, or an unknown one, contributes no field at run time. *)
 From Coq Require Import Relations.
 From GV Require Import Base.Prelude Lang.Lexer Lang.Ast Lang.Parser
   Exec.Value Exec.Schema Exec.Spec Exec.SpecProps Exec.Typing Exec.Soundness
   Valid.StaticTyping Valid.StaticTypingProps Valid.Rules Valid.RulesProps Valid.Rules13 Valid.ToExec
-  Valid.RulesLit Valid.RulesTyping Valid.RulesTypingDoc Valid.RulesTypingGlue Valid.RulesTypingProps.
+  Valid.RulesLit Valid.RulesTyping Valid.RulesTypingDoc Valid.RulesTypingGlue Valid.RulesTypingProps
+  Valid.ToOverlap Valid.ToOverlapProps Valid.OverlapBridge Valid.RulesAcyclic.
+From GV Require Valid.Overlap.
 
 (* ---- the ten rules never run out of fuel ---- *)
 Theorem C13_rules_fuel : forall vs d, exists es, rules13 vs d = Some es.
@@ -157,6 +170,84 @@ Proof.
 Qed.
 Print Assumptions C13_rules_sound_partial.
 
+(* ---- the merging clause from C14's specification function ---- *)
+(* occurrence numbers of the translated document are pairwise distinct (C14's adequacy needs it) *)
+Theorem C13_rules_overlap_ids : forall rt x, Overlap.nodupb (Overlap.doc_fids (o_doc rt x)) = true.
+Proof. exact o_doc_ids. Qed.
+Print Assumptions C13_rules_overlap_ids.
+
+(* the interning of names into C14's numbers is injective and respects the two reserved names *)
+Theorem C13_rules_overlap_intern : forall a b, intern a = intern b -> a = b.
+Proof. exact intern_inj. Qed.
+Print Assumptions C13_rules_overlap_intern.
+
+(* NoFragmentCycles (with unique fragment names) => the operation expands finitely *)
+Theorem C13_rules_expansion_finite : forall fl d x,
+  to_exec fl None d = Some x ->
+  rule_unique_fragment_names d = [] -> rule_no_fragment_cycles d = Some [] ->
+  exists n, hb (d_frags x) n (d_sels x).
+Proof. exact rules_expansion_finite. Qed.
+Print Assumptions C13_rules_expansion_finite.
+
+(* on the execution model alone: statically typed + finite expansion + no conflict found by
+   FieldsInSetCanMerge => the merging clause of the judgment *)
+Theorem C13_rules_merging : forall s x rt n,
+  schema_impl_ok s = true ->
+  frags_static s (d_vars x) (d_frags x) = true -> sstatic_list s (d_vars x) rt (d_sels x) = true ->
+  is_object s rt = true ->
+  overlap_verdict s rt x = Overlap.VNo ->
+  hb (d_frags x) n (d_sels x) ->
+  names_agree s (d_frags x) rt (d_sels x).
+Proof.
+  intros s x rt n Hi Hf Hs Ho Hv Hh.
+  exact (overlap_names_agree s x rt n Hi Hf Hs Ho Hv (o_doc_ids rt x) Hh).
+Qed.
+Print Assumptions C13_rules_merging.
+
+(* ---- all modelled rules silent => the judgment ---- *)
+Theorem C13_rules_typed : forall vs fl d x rt,
+  schema_inputs_ok (vs_s vs) = true -> schema_ok (vs_s vs) = true -> dirs_std vs = true ->
+  schema_impl_ok (vs_s vs) = true ->
+  to_exec fl None d = Some x ->
+  rules13 vs d = Some [] ->
+  rule_unique_fragment_names d = [] -> rule_no_unused_fragments d = Some [] ->
+  rule_no_fragment_cycles d = Some [] -> rule_unique_variable_names d = [] ->
+  root_type (vs_s vs) (d_kind x) = Some rt -> is_object (vs_s vs) rt = true ->
+  overlap_verdict (vs_s vs) rt x = Overlap.VNo ->
+  set_typed (vs_s vs) (d_frags x) (d_vars x) [] rt (d_sels x).
+Proof.
+  intros vs fl d x rt H1 H2 H3 H4 Hx Hr Hf Hu Hc Hv Hroot Hobj Hov.
+  destruct (C13_rules_static vs fl d x rt H1 H2 H3 H4 Hx Hr Hf Hu Hv Hroot Hobj) as (_ & Hs & _ & Hfs & _).
+  destruct (rules_expansion_finite fl d x Hx Hf Hc) as [n Hn].
+  apply (C13_rules_typed_partial vs fl d x rt H1 H2 H3 H4 Hx Hr Hf Hu Hv Hroot Hobj).
+  exact (C13_rules_merging (vs_s vs) x rt n H4 Hfs Hs Hobj Hov Hn).
+Qed.
+Print Assumptions C13_rules_typed.
+
+(* ---- all modelled rules silent => execution of conforming data has no errors ---- *)
+Theorem C13_rules_sound : forall vs fl d x rt fuel vars root cv j es cs,
+  schema_inputs_ok (vs_s vs) = true -> schema_ok (vs_s vs) = true -> dirs_std vs = true ->
+  schema_impl_ok (vs_s vs) = true ->
+  to_exec fl None d = Some x ->
+  rules13 vs d = Some [] ->
+  rule_unique_fragment_names d = [] -> rule_no_unused_fragments d = Some [] ->
+  rule_no_fragment_cycles d = Some [] -> rule_unique_variable_names d = [] ->
+  root_type (vs_s vs) (d_kind x) = Some rt -> is_object (vs_s vs) rt = true ->
+  overlap_verdict (vs_s vs) rt x = Overlap.VNo ->
+  coerce_variable_values (vs_s vs) (d_vars x) vars = Some cv -> nulls_of (d_vars x) cv = [] ->
+  conforms_root (vs_s vs) rt root = true ->
+  execute_fuel fuel (vs_s vs) x vars root = Resp j es cs ->
+  es = [] /\ j <> JNull.
+Proof.
+  intros vs fl d x rt fuel vars root cv j es cs H1 H2 H3 H4 Hx Hr Hf Hu Hc Hv Hroot Hobj Hov Hcv Hn Hconf Hex.
+  destruct (C13_rules_static vs fl d x rt H1 H2 H3 H4 Hx Hr Hf Hu Hv Hroot Hobj) as (_ & Hs & _ & Hfs & _).
+  destruct (rules_expansion_finite fl d x Hx Hf Hc) as [n Hh].
+  apply (C13_rules_sound_partial vs fl d x rt fuel vars root cv j es cs H1 H2 H3 H4 Hx Hr Hf Hu Hv Hroot Hobj);
+    try assumption.
+  exact (C13_rules_merging (vs_s vs) x rt n H4 Hfs Hs Hobj Hov Hh).
+Qed.
+Print Assumptions C13_rules_sound.
+
 (* ---- non-vacuity ----
    type Q { f(x: Int! = 7): Int  n: I }   interface I { a: Int }   type T implements I { a: Int }
    query ($v: Int = 1) { f(x: $v) n { a ... on T { a } ...F } }  fragment F on I { a @skip(if: false) } *)
@@ -188,6 +279,7 @@ Example C13_rules_example :
   rule_no_unused_fragments ex_d = Some [] /\ rule_unique_variable_names ex_d = [] /\
   root_type ex_s (d_kind ex_x) = Some nQ /\ is_object ex_s nQ = true /\
   well_typed ex_s ex_x = true /\ length (d_frags ex_x) = 1%nat /\
+  rule_no_fragment_cycles ex_d = Some [] /\ overlap_verdict ex_s nQ ex_x = Overlap.VNo /\
   names_agree ex_s (d_frags ex_x) nQ (d_sels ex_x).
 Proof.
   repeat (split; [vm_compute; reflexivity|]).
@@ -203,3 +295,22 @@ Example C13_rules_example_rejected :
   | _ => False
   end.
 Proof. vm_compute. eexists _, _. split; reflexivity. Qed.
+
+(* a mutant only the merging function rejects: under n (interface I) the response key a is the field
+   a for every runtime type and additionally __typename for T.
+   { n { a ... on T { a: __typename } } } *)
+Definition ex_merge_text : list N :=
+  [123;32;110;32;123;32;97;32;46;46;46;32;111;110;32;84;32;123;32;97;58;32;95;95;116;121;112;101;110;97;109;101;
+   32;125;32;125;32;125].
+
+Example C13_rules_example_merge_rejected :
+  match parse_text EDocument (mkOpts None false false) ex_merge_text with
+  | Ok (d, _) =>
+    match to_exec no_fl None d with
+    | Some x => rules13 ex_vs d = Some [] /\ rule_no_fragment_cycles d = Some [] /\
+                overlap_verdict ex_s nQ x = Overlap.VConflict /\ well_typed ex_s x = false
+    | None => False
+    end
+  | _ => False
+  end.
+Proof. vm_compute. repeat split; reflexivity. Qed.
